@@ -682,6 +682,14 @@ def part_a(chk, quick):
     # packs around them need no isolation runs; they are evaluated and reported like every other item
     for w in member + typ:
         WORD_CLASS[w] = word_class(w, gen)
+
+    def prio(w):
+        c = WORD_CLASS[w]
+        return (0 if c in ("cpp-keyword", "python-keyword-or-builtin", "matlab-keyword-or-builtin", "yaml-special") else
+                1 if c == "c-library-macro" else 2 if c.startswith("derived:") or c == "same-as-existing-name" else 3, w)
+    # simplest first: if the thorough tier runs out of its time budget, what was covered is a prefix of this order
+    member.sort(key=prio)
+    typ.sort(key=prio)
     alone = [w for w in member + typ if w.lower() in ISOLATE]
     member = [w for w in member if w.lower() not in ISOLATE]
     typ = [w for w in typ if w.lower() not in ISOLATE]
@@ -701,7 +709,12 @@ def part_a(chk, quick):
     nswords = words_of(hard, False)[1] if quick else typ
     ex = Explorer(chk, "a")
 
+    skipped = []
+
     def job(items):
+        if chk.out_of_time():
+            skipped.append(len(items))
+            return items, [], [], []
         kept, rejected = ex.accepted_subset(items)
         if len(items) == 2 and items[1][1].lower() == "zzneutral":
             # an isolated word with its neutral sibling: report the word alone unless only the pair fails
@@ -736,6 +749,9 @@ def part_a(chk, quick):
     def nsjob(j):
         """Imported namespaces are packed (one import per word); a failing or rejected pack is split into single words."""
         role, ws = j
+        if chk.out_of_time():
+            skipped.append(len(ws))
+            return []
         r = nseval(role, ws)
         if len(ws) == 1 or (r["accepted"] and not r["fails"]):
             return [(role, w, r) for w in ws]
@@ -746,6 +762,8 @@ def part_a(chk, quick):
         nsresults = [x for lst in pool.map(nsjob, nsjobs) for x in lst]
     nrej = 0
     for items, kept, rejected, kern in results:
+        if not kept and not rejected and not kern:
+            continue          # not reached (time budget)
         chk.count(len(items))
         nrej += len(rejected)
         for it in kept:
@@ -760,7 +778,8 @@ def part_a(chk, quick):
                 report(chk, "A", [(role, w)], r["fails"])
         else:
             nrej += 1
-    chk.extra["partA"].update(packages=len(jobs) + len(nsresults), items_rejected_by_validation=nrej, package_evaluations=ex.evals)
+    chk.extra["partA"].update(packages=len(jobs) + len(nsresults), items_rejected_by_validation=nrej, package_evaluations=ex.evals,
+                              items_not_reached_within_time_budget=sum(skipped))
     chk.sample({"part": "A", "member_words": member[:8], "type_words": typ[:8], "roles": MEMBER_ROLES + TYPE_ROLES + NS_ROLES})
 
 
@@ -1243,9 +1262,14 @@ def check_outputs(wd):
         fails.append(("matlab", "lint", d))
     return fails
 
+def chk_elapsed(chk):
+    import time
+    return time.time() - chk.t0
+
+
 def main(tier, parts="ABCD"):
     quick = tier == "quick"
-    chk = Check("C08", "bounded_exhaustive", tier,
+    chk = Check("C08", "exploration", tier,
                 "A: every candidate word (keywords / standard macros / identifiers of the code generated for a baseline model, mapped back to "
                 "model spellings) x every role it is a legal name for (13 member roles, 10 type roles, 2 namespace roles), packed 48 per package, "
                 "failing packages reduced to minimal word sets by ddmin; B: all pairs of distinct legal names up to length 3 (quick) / 4 (thorough) "
@@ -1255,14 +1279,18 @@ def main(tier, parts="ABCD"):
     build.yardl_bin()
     inc_dir()
     parts = os.environ.get("C08_PARTS", parts)
-    if "A" in parts:
-        part_a(chk, quick)
     if "B" in parts:
         part_b(chk, quick)
     if "C" in parts:
         part_c(chk, quick)
     if "D" in parts:
         part_d(chk, quick)
+    if "A" in parts:
+        if not quick:
+            # part A of the thorough tier has thousands of packages; it stops taking new ones after the budget, reports
+            # exhaustive:false and how many items were not reached (words are ordered simplest first)
+            chk.set_deadline((chk_elapsed(chk)) + float(os.environ.get("VERIF_C08_BUDGET_S", "5400")))
+        part_a(chk, quick)
     chk.assumptions += [
         "C++ is checked with g++ -std=c++17 -fsyntax-only against stand-ins for xtensor (overrideArrayHeader: verif_ndarray.h), Howard Hinnant's date and the "
         "HDF5 C++ API (declaration-only shims/cpp_h5/H5Cpp.h); configurations without overrideArrayHeader are generated but their C++ is not compiled",
